@@ -265,3 +265,122 @@ def _force_outside(spec: dict, lab: int) -> dict:
     g[str(old)], g[str(lab)] = g[str(lab)], None
     spec['outside'] = lab
     return spec
+
+
+# ---------------------------------------------------------------------------
+# histories on one model object: other data sets, estimation results attached between calls
+def _nm(l: int) -> str:
+    return f'n{abs(l)}' + ('m' if l < 0 else '')
+
+
+def free_betas(spec: dict) -> dict[str, float]:
+    """names and values of the free Beta parameters `build(spec)` creates (mirror of build)"""
+    out = {}
+    kind = spec['kind']
+    for what, prefix in (('V', 'v'), ('mu', 'mu')):
+        if not spec.get(what):
+            continue
+        for l in spec['labels']:
+            lin = spec[what][str(l)]
+            out[f'{prefix}_{_nm(l)}_cte'] = lin['cte']
+            for col, b in lin['coef']:
+                out[f'{prefix}_{_nm(l)}_{col}'] = b
+            for c1, c2, b in lin.get('prod', []):
+                out[f'{prefix}_{_nm(l)}_{c1}{c2}'] = b
+    for l in spec['labels']:
+        g = spec['gamma'][str(l)]
+        if g is not None:
+            if kind['gamma'] == 'beta':
+                out[f'gamma_{_nm(l)}'] = g
+            elif kind['gamma'] == 'exp':
+                out[f'gamma_{_nm(l)}_log'] = math.log(g)
+        if spec.get('alpha'):
+            a = spec['alpha'][str(l)]
+            if kind['alpha'] == 'beta':
+                out[f'alpha_{_nm(l)}'] = a
+            elif kind['alpha'] == 'logistic':
+                out[f'alpha_{_nm(l)}_logit'] = math.log(a / (1 - a))
+        if spec.get('price') and kind['price'] == 'beta':
+            out[f'price_{_nm(l)}'] = spec['price'][str(l)]
+    if spec.get('scale') is not None and kind['scale'] == 'beta':
+        out['scale'] = spec['scale']
+    return out
+
+
+def spec_with_betas(spec: dict, betas: dict[str, float]) -> dict:
+    """the specification whose free parameters carry the values `betas` (what the model must use once estimation
+    results with these values are attached); fixed Betas / Numerics keep their values"""
+    import copy
+
+    out = copy.deepcopy(spec)
+    kind = spec['kind']
+    for what, prefix in (('V', 'v'), ('mu', 'mu')):
+        if not spec.get(what):
+            continue
+        for l in spec['labels']:
+            lin = out[what][str(l)]
+            lin['cte'] = float(betas[f'{prefix}_{_nm(l)}_cte'])
+            lin['coef'] = [[col, float(betas[f'{prefix}_{_nm(l)}_{col}'])] for col, _ in lin['coef']]
+            if lin.get('prod'):
+                lin['prod'] = [[c1, c2, float(betas[f'{prefix}_{_nm(l)}_{c1}{c2}'])] for c1, c2, _ in lin['prod']]
+    for l in spec['labels']:
+        if spec['gamma'][str(l)] is not None:
+            if kind['gamma'] == 'beta':
+                out['gamma'][str(l)] = float(betas[f'gamma_{_nm(l)}'])
+            elif kind['gamma'] == 'exp':
+                out['gamma'][str(l)] = math.exp(float(betas[f'gamma_{_nm(l)}_log']))
+        if spec.get('alpha'):
+            if kind['alpha'] == 'beta':
+                out['alpha'][str(l)] = float(betas[f'alpha_{_nm(l)}'])
+            elif kind['alpha'] == 'logistic':
+                out['alpha'][str(l)] = 1.0 / (1.0 + math.exp(-float(betas[f'alpha_{_nm(l)}_logit'])))
+        if spec.get('price') and kind['price'] == 'beta':
+            out['price'][str(l)] = float(betas[f'price_{_nm(l)}'])
+    if spec.get('scale') is not None and kind['scale'] == 'beta':
+        out['scale'] = float(betas['scale'])
+    return out
+
+
+def perturbed_betas(rnd: random.Random, spec: dict) -> dict[str, float]:
+    """other admissible values for every free parameter of the specification"""
+    out = {}
+    for name, v in free_betas(spec).items():
+        if name.startswith(('v_', 'mu_')):
+            out[name] = _r(v + rnd.uniform(-0.8, 0.8))
+        elif name.endswith('_logit'):
+            a = rnd.uniform(0.08, 0.92)
+            out[name] = _r(math.log(a / (1 - a)), 6)
+        elif name.startswith('alpha_'):
+            out[name] = _r(rnd.uniform(0.08, 0.92))
+        elif name.endswith('_log'):
+            out[name] = _r(v + rnd.uniform(-0.7, 0.7), 6)
+        else:  # gamma, price, scale: positive
+            out[name] = _r(v * 10 ** rnd.uniform(-0.3, 0.3), 5)
+    return out
+
+
+def history_spec(seed: int, i: int, *, variant: str, outside: bool, draws: int) -> dict:
+    """a specification for the history family: >= 2 observations, labels that are not 0..J-1, every baseline (and mu)
+    utility depends on the data"""
+    rnd = random.Random(f'c18-hist-{seed}-{i}')
+    spec = make_spec(seed, 300000 + i, variant=variant, outside=outside, rows=rnd.choice([2, 3]), draws=draws,
+                     labeling=rnd.choice(['one_to_n', 'random', 'shuffled_small', 'small_subset', 'wide']),
+                     n=rnd.choice([2, 3, 4, 5]))
+    for what in ('V', 'mu'):
+        if spec.get(what):
+            for l in spec['labels']:
+                lin = spec[what][str(l)]
+                if not lin['coef']:
+                    lin['coef'] = [[rnd.choice(COLS), _r(rnd.choice([-1, 1]) * rnd.uniform(0.25, 0.6))]]
+    return spec
+
+
+def other_data(rnd: random.Random, spec: dict) -> dict:
+    """another data set with the same columns and number of rows, other values"""
+    n = len(spec['eps'])
+    return {c: [_r(rnd.uniform(-2, 2), 3) for _ in range(n)] for c in COLS}
+
+
+def permuted_data(spec: dict) -> dict:
+    """the same observations in another order (rotation by one)"""
+    return {c: v[1:] + v[:1] for c, v in spec['data'].items()}
